@@ -36,6 +36,7 @@ L_cfg3    == LOne("cfg3", <<H("CW", bc, "wrbc"), H("W", <<"a">>, "wra"), H("CR",
 (* ---- hardware functions that fail while the modules start ---- *)
 L_imcomm  == IM(LOne("x", <<H("R", <<"a">>, "rda"), H("CR", bc, "rdbc"), H("W", abc, "wr")>>, <<"c">>), "imcomm", <<<<"rda", "comm">>>>)
 L_imw     == IM(L_cfg2, "imw", <<<<"wrab", "secop">>>>)
+L_imw2    == IM(L_cfgw, "imw2", <<<<"wr", "secop">>>>)
 L_imcw3   == IM(L_cfg3, "imcw3", <<<<"wrbc", "plain">>>>)
 L_imrb    == IM(L_cfg1, "imrb", <<<<"rdab", "comm">>>>)
 L_impart  == IM(L_cr3rb, "impart", <<<<"rdall", "part">>>>)
@@ -66,7 +67,7 @@ L_nokeyp   == LOne("nokeyp", <<H("PR", <<"z">>, "read_z")>>, <<>>)
 
 Good1 == {L_r2, L_cr2, L_cr3rb, L_mix, L_overlap, L_order, L_rnp, L_rnph, L_crnp, L_crnph, L_wonly}
 GoodCfg == {L_cfg2, L_cfg1, L_cfgw, L_cfg3}
-GoodIm == {L_imcomm, L_imw, L_imcw3, L_imrb, L_impart}
+GoodIm == {L_imcomm, L_imw, L_imw2, L_imcw3, L_imrb, L_impart}
 GoodSub == {L_inh, L_ovr1, L_ovr2, L_ovrw, L_ovrnp, L_subh, L_subh2, L_subsame}
 Refused == {L_dupkey, L_dupkeyF, L_dupplain, L_dupplainF, L_dupw, L_dupfn, L_dupfnF, L_subdup, L_subdupF,
             L_nokeyr, L_nokeycr, L_nokeyw, L_nokeycw, L_nokeyp}
